@@ -1089,6 +1089,35 @@ fn stream_families(thorough: bool) -> Vec<SFamily> {
             }
         }),
     });
+    // text is sliced, truncated and echoed by byte offsets in several places: one multi-byte character at EVERY byte offset
+    // of long start lines, header names and values (well-formed and malformed), incl. offsets around 1 Ki, 4 Ki and 8 Ki
+    let offs: Vec<usize> = (0..=300).chain(1018..1030).chain(4090..4100).chain(8180..8200).collect();
+    let chars = ["\u{e9}", "\u{20ac}", "\u{1f600}"];
+    let templates = 12usize;
+    let (no, nc) = (offs.len(), chars.len());
+    v.push(SFamily {
+        name: "multibyte-character-at-every-offset".into(),
+        len: templates * no * nc,
+        gen: Box::new(move |i| {
+            let (t, k, c) = (i % templates, offs[i / templates % no], chars[i / templates / no]);
+            let x = format!("{}{c}{}", "a".repeat(k), "b".repeat(20));
+            match t {
+                0 => format!("GET /{x} extra words here HTTP/1.1\r\nHost: h\r\n\r\n"),
+                1 => format!("{x}\r\nHost: h\r\n\r\n"),
+                2 => format!("GET /{x} HTTP/1.1\r\nHost: h\r\n\r\n"),
+                3 => format!("HTTP/1.1 {x}\r\nServer: s\r\n\r\n"),
+                4 => format!("HTTP/1.1 200 {x}\r\nServer: s\r\n\r\n"),
+                5 => format!("GET / HTTP/1.1\r\nHost: h\r\nX-A: {x}\r\n\r\n"),
+                6 => format!("GET / HTTP/1.1\r\n{x}: v\r\nHost: h\r\n\r\n"),
+                7 => format!("GET /{x} HTTP/1.1\nHost: h\r\nAccept: */*\r\n\r\n"),
+                8 => format!("GET / HTTP/1.1\r\nUser-Agent: {x}\r\nAccept-Language: {x};q=0.5\r\n\r\n"),
+                9 => format!("GET / HTTP/1.1\r\nCookie: {x}={x}; b\r\nReferer: {x}\r\n\r\n"),
+                10 => format!("HTTP/1.1 200 OK\r\nServer: {x}\r\nContent-Type: {x}\r\n\r\n"),
+                _ => format!("HTTP/1.1 200 OK\nServer: s\r\n{x}\r\n\r\n"),
+            }
+            .into_bytes()
+        }),
+    });
     for (name, base) in [("clienthello-record", p.hello.clone()), ("http2-request-stream", p.h2req.clone()), ("http2-response-stream", p.h2resp.clone()), ("http1-request", p.h1req.clone()), ("http1-response", p.h1resp.clone())] {
         v.push(mutations_of(name, base));
     }
@@ -1482,7 +1511,7 @@ pub fn run(thorough: bool) -> Outcome {
     huginn_net_tcp::uptime::verif_clock::clear_global();
     Outcome {
         report: total,
-        rule: "every input of every family (frames: TCP option space, option pairs, IP header grid, link-layer grid, every truncation / bit flip / header-byte and payload-byte rewrite of every frame of 17 connections and of the 4 repository captures in the context of its connection; streams: all short byte strings, TLS record header grid, every record length, HTTP/2 frame header grid, HPACK blocks, mutations of valid records / frame sequences / heads; capture files: the 4 repository captures cut at every length near every record boundary (thorough: every length), every header byte rewritten, record length fields set to boundary values, through analyze_pcap of the four analyzers followed by the intact capture on the same analyzer (must return, and then analyse the intact capture like a fresh analyzer); clock: timestamped segments of one endpoint with the wall clock stepping backwards / jumping between them; database: every line with deletions, insertions, replacements, numeric overflows, truncations) is fed to the sequential TCP, HTTP, TLS and unified analyzers, the pre-parse filters and dispatch hashes (stream inputs: ClientHello reader, HTTP/2 extractor, one-shot Akamai extractor, request and response parsers; text: database loader); no panic (overflow checks on), no call above 2 s, watchdog for non-termination; after EVERY input a 17-frame probe on the same long-lived instance equals the fresh-instance probe; every slice also through a real 1-worker pool of each kind followed by the probe; distinct = slices x timing bands / loader outcomes".into(),
+        rule: "every input of every family (frames: TCP option space, option pairs, IP header grid, link-layer grid, every truncation / bit flip / header-byte and payload-byte rewrite of every frame of 17 connections and of the 4 repository captures in the context of its connection; streams: all short byte strings, one multi-byte character at every byte offset 0..300 (and around 1 Ki / 4 Ki / 8 Ki) of well-formed and malformed start lines, header names and values, TLS record header grid, every record length, HTTP/2 frame header grid, HPACK blocks, mutations of valid records / frame sequences / heads; capture files: the 4 repository captures cut at every length near every record boundary (thorough: every length), every header byte rewritten, record length fields set to boundary values, through analyze_pcap of the four analyzers followed by the intact capture on the same analyzer (must return, and then analyse the intact capture like a fresh analyzer); clock: timestamped segments of one endpoint with the wall clock stepping backwards / jumping between them; database: every line with deletions, insertions, replacements, numeric overflows, truncations) is fed to the sequential TCP, HTTP, TLS and unified analyzers, the pre-parse filters and dispatch hashes (stream inputs: ClientHello reader, HTTP/2 extractor, one-shot Akamai extractor, request and response parsers; text: database loader); no panic (overflow checks on), no call above 2 s, watchdog for non-termination; after EVERY input a 17-frame probe on the same long-lived instance equals the fresh-instance probe; every slice also through a real 1-worker pool of each kind followed by the probe; distinct = slices x timing bands / loader outcomes".into(),
         exhaustive: true,
         bounds: json!({"families": sizes, "header_byte_values": if thorough { 256 } else { QUICK_VALUES.len() }, "slice_inputs": 4096}),
     }
